@@ -78,10 +78,111 @@ def inline_call(caller_j, bi, callee_j):
                 if t.get("unwind") is not None:
                     t["unwind"] += bbase
         caller_j["blocks"].append(nb)
+    # jump threading: a return site of the helper that hands back a KNOWN variant (`return Err(e)`, `Ok(())` at the end) is routed
+    # past the caller's test of that variant (`?`, `match`, `if let`).  Without this the CFG joins the helper's exits before the test and
+    # a path rule sees the infeasible path "helper returned Err, caller took the Ok arm".
+    if call.get("target") is not None:
+        for blk in callee_j["blocks"]:
+            if blk["cleanup"]:
+                continue
+            var = _returned_variant(callee_j, blk)
+            if var is None:
+                continue
+            _thread(caller_j, bbase + blk["i"], lbase, var)
     for dbg in callee_j.get("debug", []):
         nd = copy.deepcopy(dbg)
         _remap(nd, lbase, bbase)
         caller_j.setdefault("debug", []).append(nd)
+
+
+VARIANT_INDEX = {"Ok": "0", "Err": "1", "Continue": "0", "Break": "1", "None": "0", "Some": "1"}
+TRY_BRANCH = {"Ok": "Continue", "Err": "Break", "Some": "Continue", "None": "Break"}
+
+
+def _returned_variant(callee_j, blk):
+    """Variant of the enum value this return block of the helper hands back, when the block itself builds it."""
+    agg = {}
+    ret = None
+    for st in blk["stmts"]:
+        pl, rv = st["place"], st["rv"]
+        if pl["p"]:
+            if pl["l"] == 0:
+                ret = None
+            continue
+        v_ = None
+        if rv["k"] == "aggregate" and rv.get("agg") == "adt" and rv.get("variant") in VARIANT_INDEX:
+            v_ = rv["variant"]
+        elif rv["k"] == "use" and rv["op"]["k"] in ("copy", "move") and not rv["op"]["place"]["p"]:
+            v_ = agg.get(rv["op"]["place"]["l"])
+        agg[pl["l"]] = v_
+        if pl["l"] == 0:
+            ret = v_
+    return ret
+
+
+def _thread(cj, start_bb, holder, variant):
+    """The block start_bb leaves local `holder` with a known enum variant.  Follow the straight-line continuation (gotos, drops, plain
+    moves of the value, `Try::branch`) up to the switch on the value's discriminant, clone that stretch and send start_bb through the
+    clone into the matching switch target."""
+    holders = {holder}
+    t0 = cj["blocks"][start_bb]["term"]
+    if t0["k"] not in ("goto", "drop") or t0.get("target") is None:
+        return
+    cur = t0["target"]
+    visited = []
+    dlocal = None
+    target = None
+    for _ in range(24):
+        blk = cj["blocks"][cur]
+        if blk["cleanup"] or cur in visited:
+            return
+        visited.append(cur)
+        for st in blk["stmts"]:
+            pl, rv = st["place"], st["rv"]
+            if not pl["p"] and rv["k"] == "use" and rv["op"]["k"] in ("copy", "move") and not rv["op"]["place"]["p"] and rv["op"]["place"]["l"] in holders:
+                holders.add(pl["l"])
+            elif not pl["p"] and rv["k"] == "discr" and not rv["place"]["p"] and rv["place"]["l"] in holders:
+                dlocal = pl["l"]
+            elif not pl["p"] and pl["l"] in holders:
+                return      # the value is overwritten
+        t = blk["term"]
+        if t["k"] == "switch" and dlocal is not None and t["discr"]["k"] in ("copy", "move") and t["discr"]["place"]["l"] == dlocal and not t["discr"]["place"]["p"]:
+            want = VARIANT_INDEX[variant]
+            m = {str(v): tg for v, tg in t["targets"]}
+            target = m.get(want, t["otherwise"])
+            break
+        if t["k"] in ("goto", "drop") and t.get("target") is not None:
+            if t["k"] == "drop" and not t["place"]["p"] and t["place"]["l"] in holders:
+                return
+            cur = t["target"]
+            continue
+        if t["k"] == "call" and t.get("target") is not None:
+            cal = t.get("callee") or {}
+            a0 = t["args"][0] if t["args"] else None
+            if cal.get("name") == "branch" and str(cal.get("trait") or "").endswith("Try") and a0 and a0["k"] in ("copy", "move") \
+                    and not a0["place"]["p"] and a0["place"]["l"] in holders and not t["dest"]["p"] and variant in TRY_BRANCH:
+                holders = {t["dest"]["l"]}
+                variant = TRY_BRANCH[variant]
+                dlocal = None
+                cur = t["target"]
+                continue
+            return
+        return
+    if target is None:
+        return
+    base = len(cj["blocks"])
+    for n, bi in enumerate(visited):
+        nb = copy.deepcopy(cj["blocks"][bi])
+        nb["i"] = base + n
+        nb["threaded_from"] = bi
+        last = n == len(visited) - 1
+        t = nb["term"]
+        if last:
+            nb["term"] = {"k": "goto", "target": target, "span": t.get("span"), "threaded": variant}
+        else:
+            t["target"] = base + n + 1
+        cj["blocks"].append(nb)
+    cj["blocks"][start_bb]["term"]["target"] = base
 
 
 def static_call_sites(facts):
